@@ -68,6 +68,9 @@ type Task struct {
 type World struct {
 	Models []ModelSpec `json:"models"`
 	Tasks  []Task      `json:"tasks"`
+	// CopyModels: every task works on its own shallow copy of each shared Model struct (`c := *m`; Model is an
+	// exported plain struct, so callers can and do hold it by value); the copies share everything behind it.
+	CopyModels bool `json:"copy_models,omitempty"`
 	// MapSeed seeds the map-iteration-order seam of instrumented builds.
 	MapSeed uint64 `json:"map_seed"`
 }
@@ -87,9 +90,23 @@ type Case struct {
 	// driver when a violation needs a "warm" process (state that outlives Models, e.g. a package-level cache)
 	// and therefore does not show in a fresh process on the first execution.
 	Warm int `json:"warm,omitempty"`
+	// Battery: a sentinel model and inputs whose result was recorded when the process was still pristine and
+	// must be the same after the world(s) have run (process-level state must not change what a Run computes).
+	Battery *BatteryEntry `json:"battery,omitempty"`
 	// PristineRef: judge against references computed in brand-new OS processes (one per call).
 	PristineRef bool `json:"pristine_ref,omitempty"`
 	// Prelude: the worlds the same worker process executed immediately before this one (recorded on violations
 	// only; replay executes them first, minimisation drops what is not needed).
 	Prelude []Case `json:"prelude,omitempty"`
+}
+
+// BatteryEntry is one sentinel: a model file, one input set and what a fresh Model returned for it at the very
+// beginning of the process.
+type BatteryEntry struct {
+	Name   string            `json:"name"`
+	Op     string            `json:"op"`
+	Bytes  []byte            `json:"bytes"`
+	Inputs map[string]*val.V `json:"inputs"`
+	Kind   string            `json:"kind,omitempty"`
+	Out    map[string]*val.V `json:"out,omitempty"`
 }
